@@ -117,7 +117,7 @@ func textOrByteStringDeterministic(input []byte) (int, error) {
 		return 0, err
 	}
 
-	if (uintLen + int(stringLen)) >= len(input) {
+	if stringLen > uint64(len(input)) || (uintLen+int(stringLen)) >= len(input) {
 		panic("Text or byte string's length cannot exceed the length of the input byte array.")
 	}
 
@@ -129,6 +129,10 @@ func arrayDeterministic(input []byte) (int, error) {
 	lenOfNumOfItems, numOfItems, err := unsignedIntegerDeterministic(input)
 	if err != nil {
 		return 0, err
+	}
+
+	if numOfItems > uint64(len(input)) {
+		panic("Number of items on CBOR array is less than the number of items it claims.")
 	}
 
 	// Skip the starter byte and the bytes stating the amount of elements the array has.
@@ -159,6 +163,10 @@ func mapDeterministic(input []byte) (int, error) {
 	lenOfNumOfItemPairs, numOfItemPairs, err := unsignedIntegerDeterministic(input[0:])
 	if err != nil {
 		return 0, err
+	}
+
+	if numOfItemPairs > uint64(len(input)) {
+		panic("Number of items on CBOR map is less than the number of items it claims.")
 	}
 
 	// Skip the starter byte and the bytes stating the amount of element pairs the map has.
